@@ -150,6 +150,14 @@ func Parse(s string) (*DPoP, error) {
 	if jwkIsPrivateKey(headers.JWK()) {
 		return nil, fmt.Errorf("%w: invalid jwk header", ErrInvalidDPoP)
 	}
+	// crypto/ed25519 panics when it is given a public key that is not exactly 32 bytes long, which jwx does not check
+	var rawKey interface{}
+	if err := headers.JWK().Raw(&rawKey); err != nil {
+		return nil, fmt.Errorf("%w: invalid jwk header: %w", ErrInvalidDPoP, err)
+	}
+	if edKey, ok := rawKey.(ed25519.PublicKey); ok && len(edKey) != ed25519.PublicKeySize {
+		return nil, fmt.Errorf("%w: invalid jwk header: invalid Ed25519 public key length", ErrInvalidDPoP)
+	}
 	token, err := jwt.ParseString(s, jwt.WithKey(headers.Algorithm(), headers.JWK()))
 	if err != nil {
 		return nil, errors.Join(ErrInvalidDPoP, err)
